@@ -41,7 +41,7 @@ func validate(profile, data string, rc config.ReportConfiguration) outcome {
 				ch <- outcome{Kind: "panic", Err: fmt.Sprint(r)}
 			}
 		}()
-		rep, err := pkg.ValidateWithConfiguration(profile, data, false, nil, fixedClock{}, rc)
+		rep, err := pkg.ValidateWithConfiguration(profile, data, dbg(profile, data), nil, fixedClock{}, rc)
 		if err != nil {
 			ch <- outcome{Kind: "error", Err: err.Error()}
 			return
@@ -54,6 +54,15 @@ func validate(profile, data string, rc config.ReportConfiguration) outcome {
 	case <-time.After(150 * time.Second):
 		return outcome{Kind: "timeout"}
 	}
+}
+
+// dbg: the debug flag of the entry points is an input like any other; every case gets a fixed, content-derived value
+func dbg(profile, data string) bool {
+	h := 0
+	for i := 0; i < len(profile); i += 7 {
+		h += int(profile[i])
+	}
+	return (h+len(profile)+3*len(data))%2 == 1
 }
 
 func defaultRC() config.ReportConfiguration { return config.DefaultReportConfiguration() }
@@ -253,15 +262,15 @@ func implPipe(h caseHead, raw []byte) map[string]any {
 	obs := runWithConsumer(func(ch *chan events.Event) (string, error) {
 		switch ph.Entry {
 		case 0:
-			return pkg.Validate(h.Profile, h.Data, false, ch)
+			return pkg.Validate(h.Profile, h.Data, dbg(h.Profile, h.Data), ch)
 		case 1:
-			return pkg.ValidateCompiled(compiled, h.Data, false, ch)
+			return pkg.ValidateCompiled(compiled, h.Data, dbg(h.Profile, h.Data), ch)
 		case 2:
-			return pkg.ValidateWithConfiguration(h.Profile, h.Data, false, ch, fixedClock{}, defaultRC())
+			return pkg.ValidateWithConfiguration(h.Profile, h.Data, dbg(h.Profile, h.Data), ch, fixedClock{}, defaultRC())
 		case 3:
-			return pkg.ValidateCompiledWithConfiguration(compiled, h.Data, false, ch, fixedClock{}, defaultRC())
+			return pkg.ValidateCompiledWithConfiguration(compiled, h.Data, dbg(h.Profile, h.Data), ch, fixedClock{}, defaultRC())
 		case 4:
-			_, err := pkg.CompileProfile(h.Profile, false, ch)
+			_, err := pkg.CompileProfile(h.Profile, dbg(h.Profile, h.Data), ch)
 			return "", err
 		}
 		return "", fmt.Errorf("bad entry")
@@ -315,22 +324,22 @@ func implFuzz(h caseHead, raw []byte) map[string]any {
 		isReport := true
 		switch ph.Entry {
 		case 0:
-			rep, err = pkg.Validate(h.Profile, h.Data, false, nil)
+			rep, err = pkg.Validate(h.Profile, h.Data, dbg(h.Profile, h.Data), nil)
 		case 2:
-			rep, err = pkg.ValidateWithConfiguration(h.Profile, h.Data, false, nil, fixedClock{}, defaultRC())
+			rep, err = pkg.ValidateWithConfiguration(h.Profile, h.Data, dbg(h.Profile, h.Data), nil, fixedClock{}, defaultRC())
 		case 4:
-			_, err = pkg.CompileProfile(h.Profile, false, nil)
+			_, err = pkg.CompileProfile(h.Profile, dbg(h.Profile, h.Data), nil)
 			isReport = false
 		default:
 			var c *regoPrepared
-			c, err = pkg.CompileProfile(h.Profile, false, nil)
+			c, err = pkg.CompileProfile(h.Profile, dbg(h.Profile, h.Data), nil)
 			isReport = false
 			if err == nil {
 				isReport = true
 				if ph.Entry == 1 {
-					rep, err = pkg.ValidateCompiled(c, h.Data, false, nil)
+					rep, err = pkg.ValidateCompiled(c, h.Data, dbg(h.Profile, h.Data), nil)
 				} else {
-					rep, err = pkg.ValidateCompiledWithConfiguration(c, h.Data, false, nil, fixedClock{}, defaultRC())
+					rep, err = pkg.ValidateCompiledWithConfiguration(c, h.Data, dbg(h.Profile, h.Data), nil, fixedClock{}, defaultRC())
 				}
 			}
 		}
@@ -395,10 +404,10 @@ func implHist(h caseHead, raw []byte) map[string]any {
 			one(func() (string, error) { return pkg.Validate(other, doc, false, nil) })
 		}
 		k1, r1 := one(func() (string, error) {
-			return pkg.ValidateCompiledWithConfiguration(compiled, doc, false, nil, fixedClock{}, defaultRC())
+			return pkg.ValidateCompiledWithConfiguration(compiled, doc, dbg(h.Profile, doc), nil, fixedClock{}, defaultRC())
 		})
 		k2, r2 := one(func() (string, error) {
-			return pkg.ValidateWithConfiguration(h.Profile, doc, false, nil, fixedClock{}, defaultRC())
+			return pkg.ValidateWithConfiguration(h.Profile, doc, dbg(h.Profile, doc), nil, fixedClock{}, defaultRC())
 		})
 		same := k1 == k2 && r1 == r2
 		if !same {
@@ -732,7 +741,7 @@ func implC07(h caseHead, raw []byte) (res map[string]any) {
 				done <- fmt.Errorf("panic: %v", r)
 			}
 		}()
-		_, err := pkg.CompileProfile(h.Profile, false, nil)
+		_, err := pkg.CompileProfile(h.Profile, dbg(h.Profile, h.Data), nil)
 		done <- err
 	}()
 	select {
